@@ -375,6 +375,7 @@ main(int argc, char **argv) {
   setvbuf(stdout, obuf, _IOFBF, sizeof(obuf));
   vf_install_death_report();
   coap_startup();
+  coap_set_show_pdu_output(0);
   /* walk every log statement (they format their arguments) but print nothing */
   coap_set_log_handler(null_log);
   coap_set_log_level(COAP_LOG_DEBUG);
